@@ -527,7 +527,7 @@ class Output(object):
             if self.tick_font_size is not None:
                 label.set_fontsize(self.tick_font_size)
         for label in ax.get_yticklabels():
-            if self.xrot is not None:
+            if self.yrot is not None:
                 label.set_rotation(self.yrot)
             if self.tick_font_size is not None:
                 label.set_fontsize(self.tick_font_size)
